@@ -30,6 +30,11 @@ type ConcatCase struct {
 	// Fresh: the parts are additionally assembled by the gosk binary, one fresh process each, so
 	// that state surviving from one assembly to the next inside this process cannot hide on both sides
 	Fresh bool `json:"fresh,omitempty"`
+	// Insert: byte-less statements written between the parts of the whole program (comments aside, the kind of
+	// "unrelated statement" the property speaks of): a new EQU, the re-assignment of an EQU name that no later
+	// statement mentions, GLOBAL/EXTERN of a fresh name, a bracket directive. They must not change a byte.
+	Insert []string `json:"insert,omitempty"`
+	hidden map[string]bool
 }
 
 func (c *ConcatCase) header() string { return c.headerFor(c.Mode) }
@@ -149,12 +154,20 @@ func checkC14(c ConcatCase) Verdict {
 	h := c.header()
 	whole := h
 	for i, s := range c.Seqs {
+		if i > 0 && i-1 < len(c.Insert) && c.Insert[i-1] != "" {
+			whole += c.Insert[i-1] + "\n"
+		}
 		whole += c.partDirective(i) + seqText(s)
 	}
 	v := Verdict{Key: whole}
 	dirs := sem.Header(c.Mode)
 	for i := range c.Seqs {
 		dirs += c.partDirective(i)
+	}
+	for _, ins := range c.Insert {
+		if ins != "" && !strings.Contains(ins, "EQU") {
+			dirs += ins + "\n"
+		}
 	}
 	base := asm.Baseline(dirs)
 	rw := asm.Assemble(whole)
@@ -243,14 +256,14 @@ func checkC14(c ConcatCase) Verdict {
 		}
 	}
 	v.NonTrivial = nonEmpty >= 2 && len(cls) >= 2
-	v.Class = fmt.Sprintf("parts=%d,fresh=%v,switch=%v", len(c.Seqs), c.Fresh, len(c.PartMode) > 0)
+	v.Class = fmt.Sprintf("parts=%d,fresh=%v,switch=%v,insert=%v", len(c.Seqs), c.Fresh, len(c.PartMode) > 0, len(c.Insert) > 0)
 	v.Sample = map[string]any{"source": whole, "bytes": len(cat)}
 	return v
 }
 
 var propC14 = &Prop[ConcatCase]{
 	ID:   "C14",
-	Rule: "two or three label-free, position-independent statement sequences (instruction forms of C01, memory forms of C02, data directives, RESB, INT, far JMP, uses of shared EQU names (numbers, names derived from other names and written before or after them, and names standing for a register, a string or a memory operand) alone and inside expressions, memory operands, data directives and RESB; no $, ALIGNB, labels, relative branches) under one mode header (one case in four: a [BITS n] directive in front of some parts, so the mode in force changes between them); oracle: the whole is diagnosed only if some part alone is, and out(H;A;B;C) = out(H;A) || out(H;B) || out(H;C), every part assembled alone under the mode in force for it, and for one case in fifty (with parts of 6..14 statements) also = the parts assembled by the gosk binary, one fresh process each; non-trivial = at least two non-empty parts with statements of different form classes; distinct by source text",
+	Rule: "two or three label-free, position-independent statement sequences (instruction forms of C01, memory forms of C02, data directives, RESB, INT, far JMP, uses of shared EQU names (numbers, names derived from other names and written before or after them, and names standing for a register, a string or a memory operand) alone and inside expressions, memory operands, data directives and RESB; no $, ALIGNB, labels, relative branches) under one mode header, one case in three with byte-less statements inserted between the parts of the whole (a new EQU, the re-assignment of an EQU name that only earlier definitions mention, GLOBAL/EXTERN of a fresh name, a bracket directive) (one case in four: a [BITS n] directive in front of some parts, so the mode in force changes between them); oracle: the whole is diagnosed only if some part alone is, and out(H;A;B;C) = out(H;A) || out(H;B) || out(H;C), every part assembled alone under the mode in force for it, and for one case in fifty (with parts of 6..14 statements) also = the parts assembled by the gosk binary, one fresh process each; non-trivial = at least two non-empty parts with statements of different form classes; distinct by source text",
 	Gen: func(t *rapid.T) ConcatCase {
 		c := ConcatCase{Mode: rapid.SampledFrom([]int{0, 16, 32}).Draw(t, "mode")}
 		used := map[string]bool{}
@@ -275,11 +288,33 @@ var propC14 = &Prop[ConcatCase]{
 				c.Equs = append(c.Equs[:at], append([][2]string{d}, c.Equs[at:]...)...)
 			}
 		}
+		// insertions between the parts (one case in three). A re-assigned EQU name is one that the parts do not
+		// mention themselves: only names derived from it (and defined after it) are used
+		insertPlan := rapid.IntRange(0, 2).Draw(t, "insertplan") == 0
+		var reassign, derivedUses []string
+		if insertPlan {
+			base := genName(t, "rbase", used)
+			c.Equs = append(c.Equs, [2]string{base, renderImm(rapid.SampledFrom([]int64{2, 4, 0x10}).Draw(t, "rbasev"), 0)})
+			for k := rapid.IntRange(1, 2).Draw(t, "nrder"); k > 0; k-- {
+				body := fmt.Sprintf(rapid.SampledFrom([]string{"%s*4+1", "%s+1", "[BX+%s]", "[%s+0x100]", "[SI+%s*2]"}).Draw(t, "rform"), base)
+				dn := genName(t, "rder", used)
+				c.Equs = append(c.Equs, [2]string{dn, body})
+				derivedUses = append(derivedUses, fmt.Sprintf(rapid.SampledFrom([]string{"MOV AX,%s", "ADD CX,%s", "MOV DX,%s"}).Draw(t, "ruse"), dn))
+			}
+			reassign = append(reassign, base+"\tEQU\t"+renderImm(rapid.SampledFrom([]int64{6, 0x7f, 0x1234}).Draw(t, "rnew"), 0))
+			c.hidden = map[string]bool{base: true}
+		}
 		// a fresh process costs ~0.2 s: one case in fifty, with longer parts
 		c.Fresh = rapid.IntRange(0, 49).Draw(t, "fresh") == 23 // an interior value: rapid favours the ends of a range
 		lo, hi := 0, 5
 		if c.Fresh {
 			lo, hi = 6, 14
+		}
+		var usable [][2]string // the names the parts may mention
+		for _, e := range c.Equs {
+			if !c.hidden[e[0]] {
+				usable = append(usable, e)
+			}
 		}
 		np := rapid.IntRange(2, 3).Draw(t, "nparts")
 		switching := rapid.IntRange(0, 3).Draw(t, "switching") == 0
@@ -289,9 +324,33 @@ var propC14 = &Prop[ConcatCase]{
 				c.PartMode = append(c.PartMode, rapid.SampledFrom([]int{0, 16, 32}).Draw(t, "pmode"))
 			}
 			for i := rapid.IntRange(lo, hi).Draw(t, "nseq"); i > 0; i-- {
-				seq = append(seq, genIndepStmt(t, c.effMode(p), c.Equs))
+				seq = append(seq, genIndepStmt(t, c.effMode(p), usable))
+			}
+			// every part of an insertion case uses the derived names (before and after the insertions)
+			for _, u := range derivedUses {
+				if rapid.IntRange(0, 2).Draw(t, "placeruse") != 0 {
+					seq = append(seq, SeqStmt{u, "equ.derived"})
+				}
 			}
 			c.Seqs = append(c.Seqs, seq)
+		}
+		if insertPlan {
+			for p := 1; p < len(c.Seqs); p++ {
+				var ins string
+				switch rapid.IntRange(0, 4).Draw(t, "inskind") {
+				case 0:
+					ins = reassign[0]
+				case 1:
+					ins = genName(t, "insn", used) + "\tEQU\t" + renderImm(rapid.Int64Range(0, 300).Draw(t, "insv"), 1)
+				case 2:
+					ins = "\tGLOBAL " + genName(t, "insg", used)
+				case 3:
+					ins = "\tEXTERN " + genName(t, "inse", used)
+				default:
+					ins = rapid.SampledFrom([]string{"[SECTION .text]", "[INSTRSET \"i486p\"]", "[OPTIMIZE 1]"}).Draw(t, "insd")
+				}
+				c.Insert = append(c.Insert, ins)
+			}
 		}
 		return c
 	},
